@@ -3,7 +3,7 @@
 From Coq Require Import NArith ZArith Arith List Bool Lia Permutation.
 From Coq Require Import ZifyBool ZifyN ZifyNat.
 From FF Require Import Lib.Word Gen.Consts_device_acpi_aml Gen.Consts_aml_tree Aml.Stream Aml.Lex
-  Aml.Tree Aml.TreeSpec Aml.TreeProofs Aml.Parser Aml.Grammar
+  Aml.Tree Aml.TreeSpec Aml.TreeProofs Aml.Parser Aml.Grammar Aml.LexRoundtrip
   Aml.ParserTotalBase Aml.ParserFragBase Aml.ParserFragFirst Aml.ParserFragF0 Aml.ParserFragF0Conn Aml.ParserFragF0Top
   Aml.ParserFragRose Aml.ParserFragDev Aml.ParserFragArgs Aml.ParserFragF1 Aml.ParserFragF1First Aml.ParserFragF1Conn Aml.ParserFragF1Top
   Aml.View Aml.ParserFragView Aml.ParserFragF0View.
@@ -17,8 +17,9 @@ Definition name_entry (p : path) (d : decl) : list N :=
 Definition blk_entry (p : path) (bk : bkind) (l : fxs) : list N :=
   [1] ++ tok_path p ++ [bk_op bk] ++ flat_map (fun '(w, v) => tok_const (fw_op w) v) l.
 Definition cst_tokens (d : decl) : list N := const_tokens (d_op d) (const_val (d_op d) (d_v d)).
-Definition leaf_entry (p : path) (lk : lkind) (l : fxs) (ta : list decl) : list N :=
-  [1] ++ tok_path p ++ [lk_op lk] ++ flat_map (fun '(w, v) => tok_const (fw_op w) v) l ++ flat_map cst_tokens ta.
+Definition targ_tokens (a : targ) : list N := match a with TInt d => cst_tokens d | TStr b => tok_bytes OP_STRING b end.
+Definition leaf_entry (p : path) (lk : lkind) (l : fxs) (ta : list targ) : list N :=
+  [1] ++ tok_path p ++ [lk_op lk] ++ flat_map (fun '(w, v) => tok_const (fw_op w) v) l ++ flat_map targ_tokens ta.
 Definition dev_entry (p : path) : list N := blk_entry p BDev [].
 Definition meth_entry (p : path) (fl : N) : list N := blk_entry p BMeth [(W1, fl)].
 
@@ -111,23 +112,44 @@ Proof.
   intros Hc. destruct (is_constb_cases _ Hc) as [E|[E|[E|[E|[E|[E|E]]]]]]; rewrite E; repeat split.
 Qed.
 
-Lemma argF_cst (t : T) tables f known op p' sc : forall ks (ta : list decl) sub args, Forall2 (cst_obj t) ks ta -> forallb cst_okb ta = true ->
-  fold_left (argF t tables f known op p' sc) ks (sub, args) = (sub, args ++ flat_map cst_tokens ta).
+Definition str_obj (t : T) (tables : list (list N)) (k : N) (b : list N) : Prop :=
+  exists ko tb sl, obj t k = Some ko /\ o_opcode ko = aml_pOpStringPrefix /\ View.kids t ko = [] /\
+                   o_value ko = Some (VBytes tb sl) /\ value_bytes tables (o_value ko) = Some b.
+Definition targ_obj (t : T) (tables : list (list N)) (k : N) (a : targ) : Prop :=
+  match a with TInt d => cst_obj t k d | TStr b => str_obj t tables k b end.
+
+Lemma render_str (t : T) tables f known scope k b : str_obj t tables k b ->
+  renderExpr t tables (S f) known scope k = tok_bytes OP_STRING b.
+Proof.
+  intros (ko & tb & sl & Ho & Hop & Hk & Hv & Hb). cbn [renderExpr]. rewrite Ho. cbv zeta. rewrite Hop.
+  change (aml_pOpStringPrefix =? aml_pOpIntResolvedNamePath) with false. change (aml_pOpStringPrefix =? aml_pOpIntNamePath) with false.
+  change (aml_pOpStringPrefix =? aml_pOpIntNamePathOrMethodCall) with false. change (aml_pOpStringPrefix =? aml_pOpIntMethodCall) with false. cbn [orb].
+  unfold exprKids. rewrite Hk. cbn [exprKids_go flat_map]. rewrite Hb, Hv. unfold tok_bytes. cbn [app]. rewrite <- ?app_assoc. reflexivity.
+Qed.
+
+Lemma argF_cst (t : T) tables f known op p' sc : forall ks (ta : list targ) sub args, Forall2 (targ_obj t tables) ks ta -> forallb targ_okb ta = true ->
+  fold_left (argF t tables f known op p' sc) ks (sub, args) = (sub, args ++ flat_map targ_tokens ta).
 Proof.
   induction ks as [|k ks IH]; intros ta sub args HF Hok; inversion HF as [|k0 d ks0 ta0 Hk Hr]; subst; cbn [fold_left flat_map]; [rewrite app_nil_r; reflexivity|].
-  cbn [forallb] in Hok. apply andb_prop in Hok. destruct Hok as [Hd Hok]. unfold cst_okb in Hd. apply andb_prop in Hd. destruct Hd as [Hc _].
-  destruct (const_ops' d Hc) as (E0 & E1 & E2 & E3 & E4).
-  destruct Hk as (ko & Hko & Hop & Hkk & Hv).
-  unfold argF at 2. rewrite Hko, Hop, E0.
-  unfold pool_fuel. rewrite (render_const t tables _ known sc k ko Hko Hkk); rewrite ?Hop; try assumption.
-  2:{ rewrite Hv. unfold const_val. destruct (const_bytes (d_op d)); exact I. }
-  rewrite Hv. rewrite (IH ta0 sub _ Hr Hok). rewrite <- app_assoc. reflexivity.
+  cbn [forallb] in Hok. apply andb_prop in Hok. destruct Hok as [Hd Hok].
+  destruct d as [d|b]; cbn [targ_obj targ_okb targ_tokens] in *.
+  - unfold cst_okb in Hd. apply andb_prop in Hd. destruct Hd as [Hc _].
+    destruct (const_ops' d Hc) as (E0 & E1 & E2 & E3 & E4).
+    destruct Hk as (ko & Hko & Hop & Hkk & Hv).
+    unfold argF at 2. rewrite Hko, Hop, E0.
+    unfold pool_fuel. rewrite (render_const t tables _ known sc k ko Hko Hkk); rewrite ?Hop; try assumption.
+    2:{ rewrite Hv. unfold const_val. destruct (const_bytes (d_op d)); exact I. }
+    rewrite Hv. rewrite (IH ta0 sub _ Hr Hok). rewrite <- app_assoc. reflexivity.
+  - pose proof Hk as (ko & tb & sl & Hko & Hop & _).
+    unfold argF at 2. rewrite Hko, Hop. change (aml_pOpStringPrefix =? aml_pOpIntScopeBlock) with false. cbv iota.
+    unfold pool_fuel. rewrite (render_str t tables _ known sc k b Hk).
+    rewrite (IH ta0 sub _ Hr Hok). rewrite <- app_assoc. reflexivity.
 Qed.
 
 (** ---- a leaf named object ---- *)
 Lemma walkF_leaf (t : T) tables f known p es stmts c co lk pth fxi (l : fxs) csi ta :
   obj t c = Some co -> o_opcode co = lk_op lk -> View.kids t co = pth :: fxi ++ csi ->
-  Forall2 (fx_obj t) fxi l -> Forall2 (cst_obj t) csi ta -> forallb cst_okb ta = true ->
+  Forall2 (fx_obj t) fxi l -> Forall2 (targ_obj t tables) csi ta -> forallb targ_okb ta = true ->
   walkF t tables f known p (es, stmts) c = (es ++ [leaf_entry (p ++ [name_num (o_name co)]) lk l ta], stmts).
 Proof.
   intros Ho Hop Hk HF HC Hok. unfold walkF. rewrite Ho. cbv zeta. rewrite Hop.
@@ -168,20 +190,38 @@ Proof.
   exists ko. split; [exact Hko|]. split; [rewrite (pay_op _ _ Epko); reflexivity|]. split; [rewrite Hkko; exact Kb|rewrite (pay_val _ _ Epko); reflexivity].
 Qed.
 
-Lemma cst_view vh : forall (ta : list decl) b off, forallb cst_okb ta = true -> Forall (Desc g pl) (leaf_row b (cst_pays vh off ta)) ->
-  Forall2 (cst_obj t) (seqN b (length ta)) ta.
+Lemma cst_view vh vtbl data : nth_error tables (N.to_nat vtbl) = Some data ->
+  forall (ta : list targ) b off dpre dpost, data = dpre ++ enc_ta ta ++ dpost -> off = lenN dpre ->
+  forallb targ_okb ta = true -> Forall (Desc g pl) (leaf_row b (cst_pays vh vtbl off ta)) ->
+  Forall2 (targ_obj t tables) (seqN b (length ta)) ta.
 Proof.
-  induction ta as [|d r IH]; intros b off Hok HD; [constructor|]. cbn [cst_pays leaf_row length seqN] in HD |- *.
-  cbn [forallb] in Hok. apply andb_prop in Hok. destruct Hok as [Hd Hok]. unfold cst_okb in Hd. apply andb_prop in Hd. destruct Hd as [Hc _].
-  constructor; [|apply (IH _ _ Hok (Forall_inv_tail HD))].
+  intros Hnth. induction ta as [|d r IH]; intros b off dpre dpost Hdata Hoff Hok HD; [constructor|]. cbn [cst_pays leaf_row length seqN] in HD |- *.
+  cbn [forallb] in Hok. apply andb_prop in Hok. destruct Hok as [Hd Hok].
+  change (enc_ta (d :: r)) with (enc_targ d ++ enc_ta r) in Hdata.
+  constructor.
+  2:{ apply (IH (b + 1) (off + lenN (enc_targ d)) (dpre ++ enc_targ d) dpost); [rewrite Hdata, <- !app_assoc; reflexivity|rewrite lenN_app, Hoff; reflexivity|exact Hok|exact (Forall_inv_tail HD)]. }
   destruct (Desc_inv _ _ _ _ _ (Forall_inv HD)) as (Pb & Kb & _). cbn [map] in Kb.
-  assert (Hlc : y_op (cst_pay vh off d) <> opFreed).
-  { cbn [cst_pay y_op]. destruct (is_constb_cases _ Hc) as [E|[E|[E|[E|[E|[E|E]]]]]]; rewrite E; discriminate. }
-  destruct (view_obj t g pl b _ H Pb Hlc) as (ko & Hko & Epko & Hkko).
-  exists ko. split; [exact Hko|]. split; [rewrite (pay_op _ _ Epko); reflexivity|]. split; [rewrite Hkko; exact Kb|rewrite (pay_val _ _ Epko); reflexivity].
+  destruct d as [d|bs]; cbn [targ_okb targ_pay targ_obj enc_targ] in *.
+  - unfold cst_okb in Hd. apply andb_prop in Hd. destruct Hd as [Hc _].
+    assert (Hlc : y_op (cst_pay vh off d) <> opFreed).
+    { cbn [cst_pay y_op]. destruct (is_constb_cases _ Hc) as [E|[E|[E|[E|[E|[E|E]]]]]]; rewrite E; discriminate. }
+    destruct (view_obj t g pl b _ H Pb Hlc) as (ko & Hko & Epko & Hkko).
+    exists ko. split; [exact Hko|]. split; [rewrite (pay_op _ _ Epko); reflexivity|]. split; [rewrite Hkko; exact Kb|rewrite (pay_val _ _ Epko); reflexivity].
+  - destruct (view_obj t g pl b _ H Pb ltac:(discriminate)) as (ko & Hko & Epko & Hkko).
+    exists ko, vtbl, (mkSlice (Some (off + 1)) (lenN bs)). split; [exact Hko|]. split; [rewrite (pay_op _ _ Epko); reflexivity|]. split; [rewrite Hkko; exact Kb|].
+    split; [rewrite (pay_val _ _ Epko); reflexivity|]. rewrite (pay_val _ _ Epko). cbn [str_pay y_val value_bytes s_len s_ptr].
+    destruct (N.eqb_spec (lenN bs) 0) as [E0|E0]; [destruct bs; [reflexivity|unfold lenN in E0; cbn [length] in E0; lia]|].
+    rewrite Hnth.
+    assert (Ed : data = (dpre ++ [OP_STRING]) ++ bs ++ ([0] ++ enc_ta r ++ dpost)).
+    { rewrite Hdata. rewrite <- !app_assoc. cbn [app]. rewrite <- !app_assoc. reflexivity. }
+    rewrite Ed.
+    replace (N.to_nat (off + 1)) with (length (dpre ++ [OP_STRING])) by (rewrite app_length, Hoff; unfold lenN; cbn [length]; lia).
+    replace (N.to_nat (lenN bs)) with (length bs) by (unfold lenN; lia).
+    apply take_bytes_app.
 Qed.
 
-Definition VSpec (its : list item) : Prop := forall vh vtbl f known p es st b off,
+Definition VSpec (its : list item) : Prop := forall vh vtbl f known p es st b off data dpre dpost,
+  nth_error tables (N.to_nat vtbl) = Some data -> data = dpre ++ enc_items its ++ dpost -> off = lenN dpre ->
   Forall (Desc g pl) (lay2 vh vtbl b off its) -> forallb item_okb its = true -> (iszs its < f)%nat ->
   fold_left (walkF t tables f known p) (map ridx (lay2 vh vtbl b off its)) (es, st) = (es ++ ventries p its, st).
 
@@ -194,7 +234,7 @@ Qed.
 
 Lemma vspec_all : forall its, VSpec its.
 Proof.
-  induction its as [|d rest IH|bk k seg fa body rest IHb IH|lk seg fa ta rest IH] using items_ind; intros vh vtbl f known p es st b off HD Hok Hf.
+  induction its as [|d rest IH|bk k seg fa body rest IHb IH|lk seg fa ta rest IH] using items_ind; intros vh vtbl f known p es st b off data dpre dpost Hnth Hdata Hoff HD Hok Hf; subst off.
   - cbn [lay2 map fold_left ventries flat_map]. rewrite app_nil_r. reflexivity.
   - apply forallb_item_cons in Hok. destruct Hok as [Hd Hok]. cbn [item_okb] in Hd. apply andb_prop in Hd. destruct Hd as [Hd Hseg].
     apply N.ltb_lt in Hseg. unfold decl_okb in Hd. apply andb_prop in Hd. destruct Hd as [Hd _]. apply andb_prop in Hd. destruct Hd as [_ Hc].
@@ -211,11 +251,14 @@ Proof.
     rewrite (walkF_name t tables f known p es st b co (b + 1) (b + 2) ko Hco ltac:(rewrite (pay_op _ _ Epco); reflexivity) Hkco Hko Hkko);
       try (rewrite Hopk; assumption).
     2:{ rewrite Hvk. unfold const_val. destruct (const_bytes (d_op d)); exact I. }
-    rewrite iszs_cons in Hf. rewrite (IH vh vtbl f known p _ st _ _ HDrest Hok ltac:(lia)).
+    rewrite iszs_cons in Hf.
+    rewrite (IH vh vtbl f known p _ st (b + N.of_nat (isz (IName d))) (lenN dpre + lenN (enc_item (IName d))) data (dpre ++ enc_item (IName d)) dpost Hnth
+               ltac:(rewrite Hdata, enc_items_cons, <- !app_assoc; reflexivity) ltac:(rewrite lenN_app; reflexivity) HDrest Hok ltac:(lia)).
     cbn [ventries flat_map ventry]. rewrite <- app_assoc. cbn [app]. f_equal. f_equal. f_equal.
     unfold name_entry. rewrite Hopk, Hvk, (pay_name _ _ Epco). cbn [nam_pay y_name]. rewrite (name_num_seg _ Hseg). reflexivity.
   - apply forallb_item_cons in Hok. destruct Hok as [Hd Hok]. cbn [item_okb] in Hd. apply andb_prop in Hd. destruct Hd as [Hx Hbody].
-    apply andb_prop in Hx. destruct Hx as [Hx _]. apply andb_prop in Hx. destruct Hx as [Hx _]. apply andb_prop in Hx. destruct Hx as [Hx _].
+    apply andb_prop in Hx. destruct Hx as [Hx Hpk]. apply pkglen_okb_adm in Hpk. change (flat_map enc_item body) with (enc_items body) in Hpk.
+    apply andb_prop in Hx. destruct Hx as [Hx _]. apply andb_prop in Hx. destruct Hx as [Hx _].
     apply andb_prop in Hx. destruct Hx as [_ Hseg]. apply N.ltb_lt in Hseg.
     rewrite lay2_cons in HD |- *. rewrite map_app, fold_left_app. apply Forall_app in HD. destruct HD as [HDit HDrest].
     rewrite lay2_blk in HDit |- *. cbn [map ridx fold_left].
@@ -232,10 +275,17 @@ Proof.
     rewrite iszs_cons, isz_blk in Hf. fold l nf in Hf. destruct f as [|f']; [lia|].
     assert (Hnm : name_num (o_name co) = seg) by (rewrite (pay_name _ _ Epco); cbn [blk_pay y_name]; apply name_num_seg; exact Hseg).
     assert (Hw : walk t tables (S f') known (b + 2 + N.of_nat nf) (p ++ [name_num (o_name co)]) = (ventries (p ++ [seg]) body, [])).
-    { rewrite walk_S, Hko, Hkko, Hnm. rewrite (IHb vh vtbl f' known (p ++ [seg]) [] [] _ _ HDbody Hbody ltac:(lia)). reflexivity. }
+    { rewrite walk_S, Hko, Hkko, Hnm.
+      rewrite (IHb vh vtbl f' known (p ++ [seg]) [] [] (b + 3 + N.of_nat nf) (sb_off bk (lenN dpre) k fa) data
+                 (dpre ++ enc_op (bk_op bk) ++ enc_pkglen k (k + lenN (seg_bytes seg ++ enc_fx l ++ enc_items body)) ++ seg_bytes seg ++ enc_fx l)
+                 (enc_items rest ++ dpost) Hnth
+                 ltac:(rewrite Hdata, enc_items_cons, enc_blk; fold l; rewrite <- !app_assoc; reflexivity)
+                 ltac:(unfold sb_off, blo; fold l; rewrite (lenN_app dpre), (lenN_app (enc_op _)), (lenN_app (enc_pkglen _ _)), (lenN_enc_pkglen _ _ Hpk), (lenN_app (seg_bytes seg)); change (lenN (seg_bytes seg)) with 4; lia)
+                 HDbody Hbody ltac:(lia)). reflexivity. }
     rewrite (walkF_blk t tables (S f') known p es st b co bk (b + 1) (seqN (b + 1 + 1) nf) l (b + 2 + N.of_nat nf) ko _ Hco
                ltac:(rewrite (pay_op _ _ Epco); reflexivity) Hkco HF Hko ltac:(rewrite (pay_op _ _ Epko); reflexivity) Hw).
-    rewrite (IH vh vtbl (S f') known p _ st _ _ HDrest Hok ltac:(lia)).
+    rewrite (IH vh vtbl (S f') known p _ st (b + N.of_nat (isz (IBlk bk k seg fa body))) (lenN dpre + lenN (enc_item (IBlk bk k seg fa body))) data (dpre ++ enc_item (IBlk bk k seg fa body)) dpost Hnth
+               ltac:(rewrite Hdata, enc_items_cons, <- !app_assoc; reflexivity) ltac:(rewrite lenN_app; reflexivity) HDrest Hok ltac:(lia)).
     cbn [ventries flat_map ventry]. fold (ventries (p ++ [seg]) body). fold l. rewrite Hnm, <- !app_assoc. reflexivity.
   - apply forallb_item_cons in Hok. destruct Hok as [Hd Hok]. cbn [item_okb] in Hd. apply andb_prop in Hd. destruct Hd as [Hx Hta].
     apply andb_prop in Hx. destruct Hx as [Hx _]. apply andb_prop in Hx. destruct Hx as [Hx _]. apply andb_prop in Hx. destruct Hx as [Hx _].
@@ -248,7 +298,9 @@ Proof.
     rewrite leaf_row_app, len_lhd_pays in HDk. fold l nf in HDk. apply Forall_app in HDk. destruct HDk as [HDrow HDcs].
     unfold lhd_pays in HDrow. cbn [leaf_row] in HDrow. fold l in HDrow.
     pose proof (fx_view vh l _ _ (Forall_inv_tail HDrow)) as HF. fold nf in HF.
-    pose proof (cst_view vh ta _ _ Hta HDcs) as HC.
+    pose proof (cst_view vh vtbl data Hnth ta (b + 1 + N.of_nat (S nf)) (ta_off lk (lenN dpre) fa) (dpre ++ enc_op (lk_op lk) ++ seg_bytes seg ++ enc_fx l) (enc_items rest ++ dpost)
+                  ltac:(rewrite Hdata, enc_items_cons, enc_leaf; fold l; rewrite <- !app_assoc; reflexivity)
+                  ltac:(unfold ta_off; fold l; rewrite !lenN_app; unfold llo; change (lenN (seg_bytes seg)) with 4; lia) Hta HDcs) as HC.
     destruct (view_obj t g pl b _ H PD ltac:(destruct lk; discriminate)) as (co & Hco & Epco & Hkco).
     rewrite KD in Hkco. change (S nf + length ta)%nat with (S (nf + length ta)) in Hkco. cbn [seqN] in Hkco. rewrite seqN_app in Hkco.
     replace (b + 1 + 1 + N.of_nat nf) with (b + 1 + N.of_nat (S nf)) in Hkco by lia.
@@ -256,15 +308,17 @@ Proof.
     rewrite (walkF_leaf t tables f known p es st b co lk (b + 1) (seqN (b + 1 + 1) nf) l (seqN (b + 1 + N.of_nat (S nf)) (length ta)) ta Hco
                ltac:(rewrite (pay_op _ _ Epco); reflexivity) Hkco HF HC Hta).
     rewrite iszs_cons, isz_leaf in Hf.
-    rewrite (IH vh vtbl f known p _ st _ _ HDrest Hok ltac:(lia)).
+    rewrite (IH vh vtbl f known p _ st (b + N.of_nat (isz (ILeaf lk seg fa ta))) (lenN dpre + lenN (enc_item (ILeaf lk seg fa ta))) data (dpre ++ enc_item (ILeaf lk seg fa ta)) dpost Hnth
+               ltac:(rewrite Hdata, enc_items_cons, <- !app_assoc; reflexivity) ltac:(rewrite lenN_app; reflexivity) HDrest Hok ltac:(lia)).
     cbn [ventries flat_map ventry]. fold l. rewrite Hnm, <- !app_assoc. reflexivity.
 Qed.
 
 (** ---- the whole view ---- *)
-Theorem view_f1 its : Desc g pl (root_tree its) -> forallb item_okb its = true -> (6 + iszs its <= length pl)%nat ->
+Theorem view_f1 its hdr : Desc g pl (root_tree its) -> forallb item_okb its = true -> (6 + iszs its <= length pl)%nat ->
+  tables = [hdr ++ enc_items its] -> lenN hdr = aml_sizeofSDTHeader ->
   view t tables = ventries [] its.
 Proof.
-  intros HD Hok Hlen. unfold view. set (known := [] :: collect_known t (pool_fuel t) 0 []).
+  intros HD Hok Hlen Htb Hhdr. unfold view. set (known := [] :: collect_known t (pool_fuel t) 0 []).
   unfold pool_fuel at 1. rewrite walk_S.
   destruct (Desc_inv _ _ _ _ _ HD) as (P0 & K0 & HDk). apply Forall_app in HDk. destruct HDk as [HDl HD2].
   destruct (view_obj t g pl 0 _ H P0 ltac:(discriminate)) as (so & Hso & _ & Hkso).
@@ -276,7 +330,7 @@ Proof.
         (destruct (Desc_inv _ _ _ _ _ Dr) as (Pc & Kc & _); destruct (view_obj t g pl _ _ H Pc ltac:(discriminate)) as (co & Hco & Epco & Hkco);
          exists co; split; [exact Hco|]; split; [rewrite (pay_op _ _ Epco); reflexivity|];
          split; [rewrite (pay_name _ _ Epco); reflexivity|]; rewrite Hkco; exact Kc). }
-  rewrite (vspec_all its 1 0 (S (length (t_pool t))) known [] [] [] _ _ HD2 Hok).
+  rewrite (vspec_all its 1 0 (S (length (t_pool t))) known [] [] [] _ _ (hdr ++ enc_items its) hdr [] ltac:(rewrite Htb; reflexivity) ltac:(rewrite app_nil_r; reflexivity) ltac:(symmetry; exact Hhdr) HD2 Hok).
   2:{ rewrite <- (rep_len_pool _ _ _ H). lia. }
   cbn [app anon map]. rewrite app_nil_r. reflexivity.
 Qed.
